@@ -176,12 +176,50 @@ theorem mtenc_progress {P : Params} {c : Cfg} (h1 : 0 < c.bs) (h2 : 0 < c.tmax) 
     simp only [Nat.add_zero]
     congr 1 <;> omega
 
-/-- **mtenc_no_deadlock**: in every reachable state in which the handle has not been freed some thread can take a step that is
-    not a time-out, not a spurious wake-up and not a mere re-check of a wait condition that is still false. -/
+/-- **mtenc_no_deadlock**: in every reachable state in which the handle has not been freed — healthy or not: worker errors,
+    error returns and tear-down included — some thread can take a step that is not a time-out, not a spurious wake-up and not a
+    mere re-check of a wait condition that is still false. (For the error case see also `mtenc_error_returns`.) -/
 theorem mtenc_no_deadlock {P : Params} {c : Cfg} (h1 : 0 < c.bs) (h2 : 0 < c.tmax) {s : St} (hr : Reachable P c s)
     (hd : s.mpc ≠ .dead) : ∃ ev s', step P s ev = some s' ∧ ev.isReal = true ∧ ¬ Stutter s ev := by
   have h := mtenc_inv h1 h2 hr
   exact mtenc_progress_step h.a h.b h.w h.m hd
+
+/-- **mtenc_worker_error_signals**: worker_error() is one critical section under coder->mutex that sets `thread_error` (first error
+    wins) and signals coder->cond. -/
+theorem mtenc_worker_error_signals {P : Params} {s s' : St} {i : Nat} {r : Ret} (hs : step P s (.wEncErr i r) = some s') :
+    s'.err = some (s.err.getD r) ∧ s'.mWoken = true := by
+  simp only [step, wEncErr] at hs
+  split at hs; · cases hs
+  split at hs; · cases hs
+  split at hs
+  · cases hs; exact ⟨rfl, rfl⟩
+  · cases hs
+
+/-- **mtenc_error_returns** (deadlock freedom and wake-ups in ERROR states; no healthiness assumption): if `thread_error` is set
+    while the main thread is inside the wait of wait_for_work(), then its wait condition holds (`thread_error != LZMA_OK` is part
+    of the predicate), the wake-up has been delivered, so it must not sleep: the wake-up step leads to the top of the loop and the
+    next critical section makes lzma_code() return exactly that error. -/
+theorem mtenc_error_returns {P : Params} {c : Cfg} (h1 : 0 < c.bs) (h2 : 0 < c.tmax) {s : St} (hr : Reachable P c s)
+    (hw : s.mpc = .waiting) {r : Ret} (he : s.err = some r) :
+    waitCond s = true ∧ s.mWoken = true ∧
+    ∃ s1 s2, step P s .mWake = some s1 ∧ s1.mpc = .loopTop ∧ step P s1 .mRead = some s2 ∧
+      s2.mpc = .failed ∧ s2.lastRet = some (s.act, r) := by
+  have h := mtenc_inv h1 h2 hr
+  have hc : waitCond s = true := by simp [waitCond, he]
+  have hk := h.m.wake hw hc
+  have hre := h.b.errBad r he
+  refine ⟨hc, hk, { s with mpc := .loopTop, mWoken := false }, ret { s with mpc := .loopTop, mWoken := false } r, ?_, rfl, ?_, ?_, ?_⟩
+  · simp only [step, mWake, hw, hk, and_self, if_true, hc]
+  · simp only [step, mRead, he, if_true]
+  · exact ret_err_mpc _ hre
+  · unfold ret
+    split
+    · rename_i hx
+      rcases hx with hx | hx | hx
+      · exact absurd hx hre.1
+      · exact absurd hx hre.2.1
+      · exact absurd hx hre.2.2
+    · rfl
 
 /-- **mtenc_no_lost_wakeup**: whenever a thread is inside a condition wait and the condition it waits for holds, the matching
     signal has been delivered (its `woken` flag is set): every transition that makes a wait condition true signals the
@@ -296,6 +334,17 @@ example : (run exP (initSt exCfg exP) (exTrace4 ++ [.call [] 100 .finish, .mRead
     (fun s => s.outq.map fun e => e.wk.map fun w => (w.pc, w.asleep, w.woken, needsRun e w)) = some [some (.enc, true, true, true)] := by
   decide +kernel
 
+
+/-- the hypotheses of mtenc_error_returns are satisfiable: the main thread has handed over everything with FINISH and sleeps in
+    wait_for_work(); then the worker fails (e.g. allocation failure in lzma_block_encoder_init): thread_error set, main signalled. -/
+example : (run exP (initSt exCfg exP)
+    [.call [10] 100 .finish, .mHdr, .mRead, .mEncIn, .mEncIn, .mEncIn, .mAfterIn, .mWake, .wTop 0 0, .wEncErr 0 MEM_ERROR]).map
+    (fun s => (s.mpc, s.err, s.mWoken, waitCond s)) = some (.waiting, some MEM_ERROR, true, true) := by decide +kernel
+
+/-- … and lzma_code() then returns LZMA_MEM_ERROR. -/
+example : (run exP (initSt exCfg exP)
+    [.call [10] 100 .finish, .mHdr, .mRead, .mEncIn, .mEncIn, .mEncIn, .mAfterIn, .mWake, .wTop 0 0, .wEncErr 0 MEM_ERROR, .mWake, .mRead]).map
+    (fun s => (s.mpc, s.lastRet)) = some (.failed, some (.finish, MEM_ERROR)) := by decide +kernel
 
 -- ---------------------------------------------------------------------------------------------------------------------
 -- the original re-init protocol (xz 5.8.1): the two schedule-dependent defects are reachable (watch item F5, finding F7)
